@@ -23,44 +23,84 @@ def nextNotTrivia : List LK → Option LK × List LK
 | [] => (none, [])
 | k :: r => if k.isTrivia then nextNotTrivia r else (some k, r)
 
-/-- `eat_until_else_or_endif`; returns rest and whether EOF was hit -/
-def eatUntil : Nat → List LK → List LK × Bool
-| _, [] => ([], true)
+/-- how `eat_until_else_or_endif` left its loop -/
+inductive End | else_ | endif | eof
+deriving DecidableEq, Repr
+
+/-- the loop of `eat_until_else_or_endif`; returns the rest and how the loop was left -/
+def eatUntil : Nat → List LK → List LK × End
+| _, [] => ([], .eof)
 | d, k :: r =>
   match k with
   | .ifdef | .ifndef => eatUntil (d+1) r
-  | .endif => if d ≥ 2 then eatUntil (d-1) r else (r, false)
-  | .else_ => if d = 1 then (r, false) else eatUntil d r
+  | .endif => if d ≥ 2 then eatUntil (d-1) r else (r, .endif)
+  | .else_ => if d = 1 then (r, .else_) else eatUntil d r
   | _ => eatUntil d r
 
 def disabled (ms : List Name) (m : Name) (neg : Bool) : Bool := ms.contains m == neg
 
+def eofMsg : String := "reached EOF without matching #endif"
+def nameMsg (neg : Bool) : String :=
+  if neg then "expected macro name after #ifndef" else "expected macro name after #ifdef"
+def defineMsg : String := "expected macro name after #define"
+
+/-- a lexer token that parks a message in `Lexer::error` -/
+def LK.isErr : LK → Bool
+| .other k _ => k == .Error
+| _ => false
+
+/-- `PreProcessor` state: `macros`, `open_conditionals`, `error`, and whether the lexer below
+holds a parked message (`Lexer::error.is_some()`) -/
 structure PS where
   macros : List Name
-  parked : Bool := false      -- "reached EOF without matching #endif" parked, never surfaced
+  opens : Nat := 0
+  err : Option String := none
+  lexErr : Bool := false
+
+theorem PS.eq_of {a b : PS} (h1 : a.macros = b.macros) (h2 : a.opens = b.opens) (h3 : a.err = b.err)
+    (h4 : a.lexErr = b.lexErr) : a = b := by
+  cases a; cases b; simp_all
+
+/-- the lexer delivered `k`: an `Error` token parks its message -/
+def PS.lexed (st : PS) (k : LK) : PS := { st with lexErr := st.lexErr || k.isErr }
+
+/-- `PreProcessor::error`: a message the lexer parked is taken and dropped, then the message is
+parked -/
+def PS.error (st : PS) (m : String) : PS := { st with lexErr := false, err := some m }
+
+/-- `eat_until_else_or_endif` from depth 1 (the lexer's parked message is dropped after the loop,
+a skip that ran into the end of the text parks the message) together with the caller's
+`if … == SkipEnd::Else { self.open_conditionals += 1 }` -/
+def skip (st : PS) (r : List LK) : PS × List LK :=
+  match eatUntil 1 r with
+  | (r', .eof) => (st.error eofMsg, r')
+  | (r', .else_) => ({ st with lexErr := false, opens := st.opens + 1 }, r')
+  | (r', .endif) => ({ st with lexErr := false }, r')
 
 def processIf (neg : Bool) (st : PS) (r : List LK) : Out × PS × List LK :=
   match nextNotTrivia r with
   | (some (.id m), r') =>
-    if disabled st.macros m neg then
-      let (r'', eof) := eatUntil 1 r'
-      (.pp, { st with parked := st.parked || eof }, r'')
-    else (.pp, st, r')
-  | (_, r') => (.error, st, r')
+    if disabled st.macros m neg then (.pp, (skip st r').1, (skip st r').2)
+    else (.pp, { st with opens := st.opens + 1 }, r')
+  | (_, r') => (.error, st.error (nameMsg neg), r')
+
+/-- the `Eof` arm of `next_token` -/
+def atEof (st : PS) : PS :=
+  if 0 < st.opens ∧ st.err = none then { st with opens := 0 }.error eofMsg else st
 
 def next (st : PS) : List LK → Out × PS × List LK
-| [] => (.eof, st, [])
+| [] => (.eof, atEof st, [])
 | k :: r =>
   match k with
   | .ifdef => processIf false st r
   | .ifndef => processIf true st r
-  | .else_ => let (r', eof) := eatUntil 1 r; (.pp, { st with parked := st.parked || eof }, r')
-  | .endif => (.pp, st, r)
+  | .else_ => (.pp, (skip { st with opens := st.opens - 1 } r).1, (skip { st with opens := st.opens - 1 } r).2)
+  | .endif => (.pp, { st with opens := st.opens - 1 }, r)
   | .define =>
     match nextNotTrivia r with
     | (some (.id m), r') => (.pp, { st with macros := m :: st.macros }, r')
-    | (_, r') => (.error, st, r')
-  | k => (.tok k, st, r)
+    | (_, r') => (.error, st.error defineMsg, r')
+  | k => (.tok k, st.lexed k, r)
 
 /-- run to EOF with fuel; collects outputs -/
 def runAll : Nat → PS → List LK → Option (List Out)
@@ -68,6 +108,26 @@ def runAll : Nat → PS → List LK → Option (List Out)
 | n+1, st, r =>
   if (next st r).1 = .eof then some []
   else (runAll n (next st r).2.1 (next st r).2.2).map ((next st r).1 :: ·)
+
+/-- `take_error` (which message comes out is the concrete model's business; here: which slot is emptied) -/
+def take (st : PS) : PS := if st.err.isSome then { st with err := none } else { st with lexErr := false }
+
+/-- the outputs the parser sees as `Error` tokens -/
+def Out.isError : Out → Bool
+| .error => true
+| .tok k => k.isErr
+| _ => false
+
+/-- the consumer's discipline (`ParserBase::save`): the message of an `Error` token is fetched
+before the next token is asked for -/
+def pull (o : Out) (st : PS) : PS := if o.isError then take st else st
+
+/-- run to EOF under that discipline; the state in which `Eof` was delivered -/
+def drain : Nat → PS → List LK → Option PS
+| 0, _, _ => none
+| n+1, st, r =>
+  if (next st r).1 = .eof then some (next st r).2.1
+  else drain n (pull (next st r).1 (next st r).2.1) (next st r).2.2
 
 /-! ### well-nested items and the reference evaluation -/
 mutual
@@ -187,109 +247,518 @@ theorem runAll_step (st st' : PS) (r r' : List LK) (o : Out) (ho : o ≠ .eof)
     runAll (n+1) st r = some (o :: outs) := by
   simp [runAll, hn, ho, h]
 
+/-! #### what is delivered depends on the macro set only -/
+
+theorem skip_rest (st : PS) (r : List LK) : (skip st r).2 = (eatUntil 1 r).1 := by
+  unfold skip; split <;> simp_all
+
+theorem skip_macros (st : PS) (r : List LK) : (skip st r).1.macros = st.macros := by
+  unfold skip; split <;> rfl
+
+theorem next_congr (st st' : PS) (h : st.macros = st'.macros) (r : List LK) :
+    (next st r).1 = (next st' r).1 ∧ (next st r).2.2 = (next st' r).2.2 ∧
+    (next st r).2.1.macros = (next st' r).2.1.macros := by
+  have hatEof : (atEof st).macros = (atEof st').macros := by
+    unfold atEof; split <;> split <;> simp [PS.error, h]
+  have hif : ∀ neg r, (processIf neg st r).1 = (processIf neg st' r).1 ∧
+      (processIf neg st r).2.2 = (processIf neg st' r).2.2 ∧
+      (processIf neg st r).2.1.macros = (processIf neg st' r).2.1.macros := by
+    intro neg r
+    unfold processIf
+    split
+    · rw [h]; split <;> simp [skip_rest, skip_macros, h]
+    · simp [PS.error, h]
+  cases r with
+  | nil => exact ⟨rfl, rfl, hatEof⟩
+  | cons k r =>
+    cases k with
+    | ifdef => exact hif false r
+    | ifndef => exact hif true r
+    | else_ => simp [next, skip_rest, skip_macros, h]
+    | endif => simp [next, h]
+    | define =>
+      simp only [next]
+      split <;> simp [PS.error, h]
+    | id m => simp [next, PS.lexed, h]
+    | ws => simp [next, PS.lexed, h]
+    | other k t => simp [next, PS.lexed, h]
+
+theorem runAll_congr (n : Nat) (st st' : PS) (h : st.macros = st'.macros) (r : List LK) :
+    runAll n st r = runAll n st' r := by
+  induction n generalizing st st' r with
+  | zero => rfl
+  | succ n ih =>
+    obtain ⟨h1, h2, h3⟩ := next_congr st st' h r
+    simp only [runAll, h1, h2]
+    rw [ih _ _ h3]
+
+/-! #### runs under the consumer's discipline -/
+
+/-- nothing parked: neither a preprocessor message nor a lexer message -/
+def Quiet (st : PS) : Prop := st.err = none ∧ st.lexErr = false
+
+theorem pull_macros (o : Out) (st : PS) : (pull o st).macros = st.macros := by
+  unfold pull take; split
+  · split <;> rfl
+  · rfl
+
+theorem pull_pp (st : PS) : pull .pp st = st := rfl
+
+/-- a plain token delivered in a quiet state leaves a quiet state once its message (if it is a
+lexical `Error` token) has been fetched -/
+theorem pull_tok_quiet (st : PS) (k : LK) (hq : Quiet st) : pull (.tok k) (st.lexed k) = st := by
+  obtain ⟨h1, h2⟩ := hq
+  cases hk : k.isErr
+  · simp only [pull, Out.isError, hk, Bool.false_eq_true, if_false, PS.lexed]
+    exact PS.eq_of rfl rfl rfl (by simp)
+  · simp only [pull, Out.isError, hk, if_true, PS.lexed, take, h1, Option.isSome_none, Bool.false_eq_true, if_false]
+    exact PS.eq_of rfl rfl (by simp [h1]) (by simp [h2])
+
+/-- a sequence of deliveries (none of them `Eof` or a directive error), the message of every
+`Error` token being fetched before the next token is asked for -/
+inductive Steps : PS → List LK → List Out → PS → List LK → Prop
+| refl (st : PS) (r : List LK) : Steps st r [] st r
+| step {st : PS} {r : List LK} {o : Out} {st1 : PS} {r1 : List LK} {outs : List Out} {st2 : PS} {r2 : List LK}
+    (hn : next st r = (o, st1, r1)) (ho : o ≠ .eof) (he : o ≠ .error)
+    (hs : Steps (pull o st1) r1 outs st2 r2) : Steps st r (o :: outs) st2 r2
+
+theorem Steps.single {st : PS} {r : List LK} {o : Out} {st1 : PS} {r1 : List LK}
+    (hn : next st r = (o, st1, r1)) (ho : o ≠ .eof) (he : o ≠ .error) :
+    Steps st r [o] (pull o st1) r1 :=
+  .step hn ho he (.refl _ _)
+
+theorem Steps.trans {st r a st1 r1 b st2 r2} (h1 : Steps st r a st1 r1) (h2 : Steps st1 r1 b st2 r2) :
+    Steps st r (a ++ b) st2 r2 := by
+  induction h1 with
+  | refl => exact h2
+  | step hn ho he _ ih => exact .step hn ho he (ih h2)
+
+theorem Steps.noErr {st r outs st' r'} (h : Steps st r outs st' r') : noErr outs := by
+  induction h with
+  | refl => intro o ho; simp at ho
+  | step hn ho he _ ih =>
+    intro o' ho'
+    simp only [List.mem_cons] at ho'
+    rcases ho' with rfl | ho'
+    · exact he
+    · exact ih o' ho'
+
+theorem Steps.macros_runAll {st r outs st' r'} (h : Steps st r outs st' r') (n : Nat) (outs' : List Out)
+    (stA : PS) (hA : stA.macros = st.macros) (stB : PS) (hB : stB.macros = st'.macros)
+    (hr : runAll n stB r' = some outs') :
+    runAll (n + outs.length) stA r = some (outs ++ outs') := by
+  induction h generalizing stA with
+  | refl st r => simpa [runAll_congr n stA stB (by rw [hA, hB])] using hr
+  | @step st r o st1 r1 outs st2 r2 hn ho he _ ih =>
+    have hc := next_congr stA st hA r
+    rw [hn] at hc
+    simp only [] at hc
+    have := ih (next stA r).2.1 (by rw [hc.2.2, pull_macros]) hB hr
+    have hstep := runAll_step stA (next stA r).2.1 r (next stA r).2.2 o ho
+      (by rw [← hc.1]) (n + outs.length) (outs ++ outs') (by rw [hc.2.1]; exact this)
+    simpa [Nat.add_assoc] using hstep
+
+theorem drain_step (st st1 : PS) (r r1 : List LK) (o : Out) (ho : o ≠ .eof)
+    (hn : next st r = (o, st1, r1)) (n : Nat) (fin : PS) (h : drain n (pull o st1) r1 = some fin) :
+    drain (n+1) st r = some fin := by
+  simp [drain, hn, ho, h]
+
+theorem drain_eof (st st1 : PS) (r r1 : List LK) (hn : next st r = (.eof, st1, r1)) (n : Nat) :
+    drain (n+1) st r = some st1 := by
+  simp [drain, hn]
+
+theorem Steps.drain {st r outs st' r'} (h : Steps st r outs st' r') (n : Nat) (fin : PS)
+    (hd : PP.drain n st' r' = some fin) : PP.drain (n + outs.length) st r = some fin := by
+  induction h with
+  | refl => simpa using hd
+  | step hn ho he _ ih =>
+    have := drain_step _ _ _ _ _ ho hn _ fin (ih hd)
+    simpa [Nat.add_assoc] using this
+
 theorem next_open (neg : Bool) (st : PS) (w : Nat) (m : Name) (tail : List LK) :
     next st ((if neg then LK.ifndef else LK.ifdef) :: (List.replicate w LK.ws ++ LK.id m :: tail)) =
-      if disabled st.macros m neg then
-        (.pp, { st with parked := st.parked || (eatUntil 1 tail).2 }, (eatUntil 1 tail).1)
-      else (.pp, st, tail) := by
+      if disabled st.macros m neg then (.pp, (skip st tail).1, (skip st tail).2)
+      else (.pp, { st with opens := st.opens + 1 }, tail) := by
   have hw := nextNotTrivia_ws w (LK.id m) (by simp [LK.isTrivia]) tail
-  cases neg <;> simp only [next, processIf, hw] <;> split <;> simp_all
+  cases neg <;> simp only [next, processIf, hw] <;> rfl
+
+theorem skip_endif (st : PS) (hq : Quiet st) (r r' : List LK) (h : eatUntil 1 r = (r', .endif)) :
+    skip st r = (st, r') := by
+  unfold skip; rw [h]
+  exact Prod.ext (PS.eq_of rfl rfl rfl (by simp [hq.2])) rfl
+
+theorem skip_else (st : PS) (hq : Quiet st) (r r' : List LK) (h : eatUntil 1 r = (r', .else_)) :
+    skip st r = ({ st with opens := st.opens + 1 }, r') := by
+  unfold skip; rw [h]
+  exact Prod.ext (PS.eq_of rfl rfl rfl (by simp [hq.2])) rfl
+
+theorem skip_hits_eof (st : PS) (r r' : List LK) (h : eatUntil 1 r = (r', .eof)) :
+    skip st r = ({ st with lexErr := false, err := some eofMsg }, r') := by
+  unfold skip; rw [h]; rfl
 
 mutual
-theorem Item.sel (i : Item) (hok : i.ok = true) (st : PS) (rest : List LK) (n : Nat) (outs : List Out)
-    (h : runAll n { st with macros := (i.ref st.macros).2 } rest = some outs) :
-    ∃ n' pre, runAll n' st (i.flatten ++ rest) = some (pre ++ outs) ∧
-      plains pre = (i.ref st.macros).1 ∧ noErr pre := by
+/-- a well-nested item, met in a quiet state, is processed in a sequence of deliveries that
+selects the reference's tokens and ends in the same state except for the macro set -/
+theorem Item.steps (i : Item) (hok : i.ok = true) (st : PS) (hq : Quiet st) (rest : List LK) :
+    ∃ outs, Steps st (i.flatten ++ rest) outs { st with macros := (i.ref st.macros).2 } rest ∧
+      plains outs = (i.ref st.macros).1 := by
   match i with
   | .tok k =>
-    have hn : next st (k :: rest) = (.tok k, st, rest) := by
+    have hn : next st (k :: rest) = (.tok k, st.lexed k, rest) := by
       cases k <;> simp_all [Item.ok, LK.plain, next]
-    refine ⟨n+1, [.tok k], ?_, by simp [plains, Item.ref], by simp [noErr]⟩
-    have := runAll_step st st _ _ _ (by simp) hn n outs (by simpa [Item.ref] using h)
-    simpa [Item.flatten] using this
+    refine ⟨[.tok k], ?_, by simp [plains, Item.ref]⟩
+    have := Steps.single hn (by simp) (by simp)
+    rw [pull_tok_quiet st k hq] at this
+    simpa [Item.flatten, Item.ref] using this
   | .define w m =>
     have hn : next st (LK.define :: (List.replicate w LK.ws ++ LK.id m :: rest)) =
         (.pp, { st with macros := m :: st.macros }, rest) := by
       have hw := nextNotTrivia_ws w (LK.id m) (by simp [LK.isTrivia]) rest
       simp [next, hw]
-    refine ⟨n+1, [.pp], ?_, by simp [plains, Item.ref], by simp [noErr]⟩
-    have := runAll_step st _ _ _ _ (by simp) hn n outs (by simpa [Item.ref] using h)
-    simpa [Item.flatten] using this
+    refine ⟨[.pp], ?_, by simp [plains, Item.ref]⟩
+    have := Steps.single hn (by simp) (by simp)
+    simpa [Item.flatten, Item.ref, pull_pp] using this
   | .cond neg w m t hasElse e =>
     simp only [Item.ok, Bool.and_eq_true] at hok
+    have hq1 : Quiet { st with opens := st.opens + 1 } := hq
     cases hdis : disabled st.macros m neg with
     | true =>
       cases hasElse with
       | false =>
         have hn : next st ((Item.cond neg w m t false e).flatten ++ rest) = (.pp, st, rest) := by
           simp only [Item.flatten, List.cons_append, List.append_assoc, next_open, hdis, if_true]
+          rw [skip_endif st hq _ rest]
           simp [Items.skip t hok.1 1 (Nat.le_refl _), eatUntil]
-        refine ⟨n+1, [.pp], ?_, by simp [plains, Item.ref, hdis], by simp [noErr]⟩
-        exact runAll_step st st _ _ _ (by simp) hn n outs (by simpa [Item.ref, hdis] using h)
+        refine ⟨[.pp], ?_, by simp [plains, Item.ref, hdis]⟩
+        have := Steps.single hn (by simp) (by simp)
+        simpa [Item.ref, hdis, pull_pp] using this
       | true =>
         have hn : next st ((Item.cond neg w m t true e).flatten ++ rest) =
-            (.pp, st, e.flatten ++ (LK.endif :: rest)) := by
+            (.pp, { st with opens := st.opens + 1 }, e.flatten ++ (LK.endif :: rest)) := by
           simp only [Item.flatten, List.cons_append, List.append_assoc, next_open, hdis, if_true]
+          rw [skip_else st hq _ (e.flatten ++ (LK.endif :: rest))]
           simp [Items.skip t hok.1 1 (Nat.le_refl _), eatUntil]
-        have hclose : runAll (n+1) { st with macros := (e.ref st.macros).2 } (LK.endif :: rest) = some (.pp :: outs) :=
-          runAll_step _ { st with macros := (e.ref st.macros).2 } _ rest _ (by simp) (by simp [next]) n outs (by simpa [Item.ref, hdis] using h)
-        obtain ⟨n2, pre, hrun, hpl, hne⟩ := Items.sel e hok.2 st (LK.endif :: rest) (n+1) (.pp :: outs) hclose
-        refine ⟨n2+1, .pp :: (pre ++ [.pp]), ?_, ?_, ?_⟩
-        · have := runAll_step st st _ _ _ (by simp) hn n2 (pre ++ .pp :: outs) hrun
-          simpa using this
+        obtain ⟨outs, hs, hpl⟩ := Items.steps e hok.2 { st with opens := st.opens + 1 } hq1 (LK.endif :: rest)
+        have hclose : next { ({ st with opens := st.opens + 1 } : PS) with macros := (e.ref st.macros).2 } (LK.endif :: rest) =
+            (.pp, { st with macros := (e.ref st.macros).2 }, rest) := by
+          simp only [next]
+          exact Prod.ext rfl (Prod.ext (PS.eq_of rfl (by simp) rfl rfl) rfl)
+        refine ⟨.pp :: (outs ++ [.pp]), ?_, ?_⟩
+        · have h1 := Steps.single hn (by simp) (by simp)
+          have h3 := Steps.single hclose (by simp) (by simp)
+          have := (h1.trans hs).trans h3
+          simpa [Item.ref, hdis, pull_pp] using this
         · simp [plains, plains_append, Item.ref, hdis, hpl]
-        · intro o ho; simp at ho; rcases ho with rfl | ho | rfl
-          · simp
-          · exact hne o ho
-          · simp
     | false =>
-      have hn : ∀ tail, next st ((if neg then LK.ifndef else LK.ifdef) :: (List.replicate w LK.ws ++ LK.id m :: tail)) = (.pp, st, tail) := by
+      have hn : ∀ tail, next st ((if neg then LK.ifndef else LK.ifdef) :: (List.replicate w LK.ws ++ LK.id m :: tail)) =
+          (.pp, { st with opens := st.opens + 1 }, tail) := by
         intro tail; simp [next_open, hdis]
       cases hasElse with
       | false =>
-        have hclose : runAll (n+1) { st with macros := (t.ref st.macros).2 } (LK.endif :: rest) = some (.pp :: outs) :=
-          runAll_step _ { st with macros := (t.ref st.macros).2 } _ rest _ (by simp) (by simp [next]) n outs (by simpa [Item.ref, hdis] using h)
-        obtain ⟨n2, pre, hrun, hpl, hne⟩ := Items.sel t hok.1 st (LK.endif :: rest) (n+1) (.pp :: outs) hclose
-        refine ⟨n2+1, .pp :: (pre ++ [.pp]), ?_, ?_, ?_⟩
-        · have := runAll_step st st _ _ _ (by simp) (hn (t.flatten ++ (LK.endif :: rest))) n2 (pre ++ .pp :: outs) hrun
-          simpa [Item.flatten] using this
-        · simp [plains, plains_append, Item.ref, hdis, hpl]
-        · intro o ho; simp at ho; rcases ho with rfl | ho | rfl
-          · simp
-          · exact hne o ho
-          · simp
-      | true =>
-        have helse : next { st with macros := (t.ref st.macros).2 } (LK.else_ :: (e.flatten ++ (LK.endif :: rest))) =
+        obtain ⟨outs, hs, hpl⟩ := Items.steps t hok.1 { st with opens := st.opens + 1 } hq1 (LK.endif :: rest)
+        have hclose : next { ({ st with opens := st.opens + 1 } : PS) with macros := (t.ref st.macros).2 } (LK.endif :: rest) =
             (.pp, { st with macros := (t.ref st.macros).2 }, rest) := by
-          simp [next, Items.skip e hok.2 1 (Nat.le_refl _), eatUntil]
-        have hclose := runAll_step _ _ _ _ _ (by simp) helse n outs (by simpa [Item.ref, hdis] using h)
-        obtain ⟨n2, pre, hrun, hpl, hne⟩ := Items.sel t hok.1 st _ (n+1) (.pp :: outs) hclose
-        refine ⟨n2+1, .pp :: (pre ++ [.pp]), ?_, ?_, ?_⟩
-        · have := runAll_step st st _ _ _ (by simp) (hn (t.flatten ++ (LK.else_ :: (e.flatten ++ (LK.endif :: rest))))) n2 (pre ++ .pp :: outs) hrun
-          simpa [Item.flatten] using this
+          simp only [next]
+          exact Prod.ext rfl (Prod.ext (PS.eq_of rfl (by simp) rfl rfl) rfl)
+        refine ⟨.pp :: (outs ++ [.pp]), ?_, ?_⟩
+        · have h1 := Steps.single (hn (t.flatten ++ (LK.endif :: rest))) (by simp) (by simp)
+          have h3 := Steps.single hclose (by simp) (by simp)
+          have := (h1.trans hs).trans h3
+          simpa [Item.flatten, Item.ref, hdis, pull_pp] using this
         · simp [plains, plains_append, Item.ref, hdis, hpl]
-        · intro o ho; simp at ho; rcases ho with rfl | ho | rfl
-          · simp
-          · exact hne o ho
-          · simp
+      | true =>
+        obtain ⟨outs, hs, hpl⟩ := Items.steps t hok.1 { st with opens := st.opens + 1 } hq1
+          (LK.else_ :: (e.flatten ++ (LK.endif :: rest)))
+        have helse : next { ({ st with opens := st.opens + 1 } : PS) with macros := (t.ref st.macros).2 }
+              (LK.else_ :: (e.flatten ++ (LK.endif :: rest))) =
+            (.pp, { st with macros := (t.ref st.macros).2 }, rest) := by
+          simp only [next]
+          rw [skip_endif _ (by exact hq) _ rest (by simp [Items.skip e hok.2 1 (Nat.le_refl _), eatUntil])]
+          exact Prod.ext rfl (Prod.ext (PS.eq_of rfl (by simp) rfl rfl) rfl)
+        refine ⟨.pp :: (outs ++ [.pp]), ?_, ?_⟩
+        · have h1 := Steps.single (hn (t.flatten ++ (LK.else_ :: (e.flatten ++ (LK.endif :: rest))))) (by simp) (by simp)
+          have h3 := Steps.single helse (by simp) (by simp)
+          have := (h1.trans hs).trans h3
+          simpa [Item.flatten, Item.ref, hdis, pull_pp] using this
+        · simp [plains, plains_append, Item.ref, hdis, hpl]
+theorem Items.steps (is : Items) (hok : is.ok = true) (st : PS) (hq : Quiet st) (rest : List LK) :
+    ∃ outs, Steps st (is.flatten ++ rest) outs { st with macros := (is.ref st.macros).2 } rest ∧
+      plains outs = (is.ref st.macros).1 := by
+  match is with
+  | .nil => exact ⟨[], by simpa [Items.flatten, Items.ref] using Steps.refl st rest, by simp [plains, Items.ref]⟩
+  | .cons i is =>
+    simp only [Items.ok, Bool.and_eq_true] at hok
+    obtain ⟨o1, hs1, hp1⟩ := Item.steps i hok.1 st hq (is.flatten ++ rest)
+    obtain ⟨o2, hs2, hp2⟩ := Items.steps is hok.2 { st with macros := (i.ref st.macros).2 } hq rest
+    refine ⟨o1 ++ o2, ?_, ?_⟩
+    · have := hs1.trans hs2
+      simpa [Items.flatten, Items.ref, List.append_assoc] using this
+    · simp [plains_append, hp1, hp2, Items.ref]
+end
+
+/-- **selection**, in the form used by C15: from any state, the run over a well-nested item list
+followed by `rest` delivers the reference's tokens, no directive error, then whatever the run over
+`rest` (from a state with the reference's macro set) delivers -/
 theorem Items.sel (is : Items) (hok : is.ok = true) (st : PS) (rest : List LK) (n : Nat) (outs : List Out)
     (h : runAll n { st with macros := (is.ref st.macros).2 } rest = some outs) :
     ∃ n' pre, runAll n' st (is.flatten ++ rest) = some (pre ++ outs) ∧
       plains pre = (is.ref st.macros).1 ∧ noErr pre := by
-  match is with
-  | .nil => exact ⟨n, [], by simpa [Items.flatten, Items.ref] using h, by simp [plains, Items.ref], by simp [noErr]⟩
-  | .cons i is =>
-    simp only [Items.ok, Bool.and_eq_true] at hok
-    have h2 : runAll n { ({ st with macros := (i.ref st.macros).2 } : PS) with macros := (is.ref (i.ref st.macros).2).2 } rest = some outs := by
-      simpa [Items.ref] using h
-    obtain ⟨n1, pre1, hrun1, hpl1, hne1⟩ := Items.sel is hok.2 { st with macros := (i.ref st.macros).2 } rest n outs h2
-    obtain ⟨n2, pre2, hrun2, hpl2, hne2⟩ := Item.sel i hok.1 st (is.flatten ++ rest) n1 (pre1 ++ outs) hrun1
-    refine ⟨n2, pre2 ++ pre1, by simpa [Items.flatten, List.append_assoc] using hrun2, ?_, ?_⟩
-    · simp [plains_append, hpl1, hpl2, Items.ref]
-    · intro o ho; simp at ho; rcases ho with ho | ho
-      · exact hne2 o ho
-      · exact hne1 o ho
-end
+  obtain ⟨pre, hs, hpl⟩ := Items.steps is hok { st with err := none, lexErr := false } ⟨rfl, rfl⟩ rest
+  exact ⟨_, pre, hs.macros_runAll n outs st rfl { st with macros := (is.ref st.macros).2 } rfl h, hpl, hs.noErr⟩
+
+theorem Item.sel (i : Item) (hok : i.ok = true) (st : PS) (rest : List LK) (n : Nat) (outs : List Out)
+    (h : runAll n { st with macros := (i.ref st.macros).2 } rest = some outs) :
+    ∃ n' pre, runAll n' st (i.flatten ++ rest) = some (pre ++ outs) ∧
+      plains pre = (i.ref st.macros).1 ∧ noErr pre := by
+  obtain ⟨pre, hs, hpl⟩ := Item.steps i hok { st with err := none, lexErr := false } ⟨rfl, rfl⟩ rest
+  exact ⟨_, pre, hs.macros_runAll n outs st rfl { st with macros := (i.ref st.macros).2 } rfl h, hpl, hs.noErr⟩
+
+/-! ### the end of the text: well-nested arrangements end clean, unterminated ones park the message -/
+
+/-- **well-nested ⇒ clean**: a well-nested item list, run to `Eof` from a quiet state with no open
+conditional, ends quiet with no open conditional: `take_error` has nothing to report -/
+theorem Items.drain_clean (is : Items) (hok : is.ok = true) (st : PS) (hq : Quiet st) (ho : st.opens = 0) :
+    ∃ n, drain n st is.flatten = some { st with macros := (is.ref st.macros).2 } := by
+  obtain ⟨outs, hs, _⟩ := Items.steps is hok st hq []
+  simp only [List.append_nil] at hs
+  refine ⟨1 + outs.length, hs.drain 1 _ ?_⟩
+  apply drain_eof _ _ _ []
+  simp only [next, atEof, ho, Nat.lt_irrefl, false_and, if_false]
+
+/-- a conditional that is still open when the text ends: the header, the `then` items met so far
+and — if `hasElse` — the complete `then` branch followed by `#else` and the `else` items met so far.
+Whatever follows (the next frame) is nested inside it. -/
+structure Frame where
+  neg : Bool
+  w : Nat
+  m : Name
+  thn : Items
+  hasElse : Bool
+  els : Items
+
+def Frame.ok (f : Frame) : Bool := f.thn.ok && f.els.ok
+
+def Frame.flatten (f : Frame) : List LK :=
+  (if f.neg then LK.ifndef else LK.ifdef) :: (List.replicate f.w LK.ws ++ (LK.id f.m :: (f.thn.flatten ++
+    (if f.hasElse then LK.else_ :: f.els.flatten else []))))
+
+/-- an unterminated tail: conditionals opened one inside the other, none of them closed -/
+def Frames.flatten : List Frame → List LK
+| [] => []
+| f :: fs => f.flatten ++ Frames.flatten fs
+
+/-- a skip that meets only unterminated conditionals runs into the end of the text -/
+theorem Frames.skip_eof (fs : List Frame) (hok : ∀ f ∈ fs, f.ok = true) (d : Nat) (hd : 1 ≤ d) :
+    eatUntil d (Frames.flatten fs) = ([], .eof) := by
+  induction fs generalizing d with
+  | nil => simp [Frames.flatten, eatUntil]
+  | cons f fs ih =>
+    have hf := hok f (by simp)
+    simp only [Frame.ok, Bool.and_eq_true] at hf
+    have ih' := ih (fun g hg => hok g (by simp [hg])) (d+1) (by omega)
+    have hstart : ∀ rr, eatUntil d ((if f.neg then LK.ifndef else LK.ifdef) :: rr) = eatUntil (d+1) rr := by
+      intro rr; cases f.neg <;> simp [eatUntil]
+    simp only [Frames.flatten, Frame.flatten, List.cons_append, List.append_assoc, hstart, eatUntil_ws]
+    simp only [eatUntil]
+    rw [Items.skip f.thn hf.1 (d+1) (by omega)]
+    cases f.hasElse with
+    | false => simpa using ih'
+    | true =>
+      simp only [if_true, List.cons_append, eatUntil]
+      have : ¬ (d + 1 = 1) := by omega
+      simp only [this, if_false]
+      rw [Items.skip f.els hf.2 (d+1) (by omega)]
+      exact ih'
+
+/-- **unterminated ⇒ parked** (core): from a quiet state, a chain of unterminated conditionals run
+to `Eof` ends with the message parked in `PreProcessor::error` — whether the innermost delivered
+branch is enabled (counter > 0 at `Eof`) or a skip ran into the end of the text -/
+theorem Frames.parks (fs : List Frame) (hok : ∀ f ∈ fs, f.ok = true) (st : PS) (hq : Quiet st)
+    (hopen : fs = [] → 0 < st.opens) :
+    ∃ n fin, drain n st (Frames.flatten fs) = some fin ∧ fin.err = some eofMsg := by
+  induction fs generalizing st with
+  | nil =>
+    refine ⟨1, atEof st, drain_eof st _ [] [] (by simp [next]) 0, ?_⟩
+    simp [atEof, PS.error, hopen rfl, hq.1]
+  | cons f fs ih =>
+    have hf := hok f (by simp)
+    simp only [Frame.ok, Bool.and_eq_true] at hf
+    have hoks : ∀ g ∈ fs, g.ok = true := fun g hg => hok g (by simp [hg])
+    have hq1 : Quiet { st with opens := st.opens + 1 } := hq
+    -- a state in which the message is parked delivers `Eof` next and keeps the message
+    have hparked : ∀ (st1 : PS), st1.err = some eofMsg → ∃ n fin, drain n st1 [] = some fin ∧ fin.err = some eofMsg := by
+      intro st1 h1
+      refine ⟨1, atEof st1, drain_eof st1 _ [] [] (by simp [next]) 0, ?_⟩
+      simp [atEof, h1]
+    cases hdis : disabled st.macros f.m f.neg with
+    | true =>
+      cases hel : f.hasElse with
+      | false =>
+        -- the skip runs to the end of the text
+        have hn : next st (Frames.flatten (f :: fs)) = (.pp, { st with lexErr := false, err := some eofMsg }, []) := by
+          simp only [Frames.flatten, Frame.flatten, hel, List.cons_append, List.append_assoc, next_open, hdis, if_true]
+          rw [skip_hits_eof st _ []]
+          simp [Items.skip f.thn hf.1 1 (Nat.le_refl _), Frames.skip_eof fs hoks 1 (Nat.le_refl _)]
+        obtain ⟨n, fin, hd, he⟩ := hparked { st with lexErr := false, err := some eofMsg } rfl
+        exact ⟨n+1, fin, drain_step _ _ _ _ _ (by simp) hn n fin (by simpa [pull_pp] using hd), he⟩
+      | true =>
+        -- skipped up to `#else`; the else items are delivered, the conditional stays open
+        have hn : next st (Frames.flatten (f :: fs)) =
+            (.pp, { st with opens := st.opens + 1 }, f.els.flatten ++ Frames.flatten fs) := by
+          simp only [Frames.flatten, Frame.flatten, hel, List.cons_append, List.append_assoc, next_open, hdis, if_true]
+          rw [skip_else st hq _ (f.els.flatten ++ Frames.flatten fs)]
+          simp [Items.skip f.thn hf.1 1 (Nat.le_refl _), eatUntil]
+        obtain ⟨outs, hs, _⟩ := Items.steps f.els hf.2 { st with opens := st.opens + 1 } hq1 (Frames.flatten fs)
+        obtain ⟨n, fin, hd, he⟩ := ih hoks { ({ st with opens := st.opens + 1 } : PS) with macros := (f.els.ref st.macros).2 }
+          hq (fun _ => Nat.succ_pos _)
+        exact ⟨n + outs.length + 1, fin, drain_step _ _ _ _ _ (by simp) hn _ fin (by simpa [pull_pp] using hs.drain n fin hd), he⟩
+    | false =>
+      have hn : ∀ tail, next st ((if f.neg then LK.ifndef else LK.ifdef) :: (List.replicate f.w LK.ws ++ LK.id f.m :: tail)) =
+          (.pp, { st with opens := st.opens + 1 }, tail) := by
+        intro tail; simp [next_open, hdis]
+      cases hel : f.hasElse with
+      | false =>
+        -- the then items are delivered, the conditional stays open
+        obtain ⟨outs, hs, _⟩ := Items.steps f.thn hf.1 { st with opens := st.opens + 1 } hq1 (Frames.flatten fs)
+        obtain ⟨n, fin, hd, he⟩ := ih hoks { ({ st with opens := st.opens + 1 } : PS) with macros := (f.thn.ref st.macros).2 }
+          hq (fun _ => Nat.succ_pos _)
+        have hn' : next st (Frames.flatten (f :: fs)) =
+            (.pp, { st with opens := st.opens + 1 }, f.thn.flatten ++ Frames.flatten fs) := by
+          simpa [Frames.flatten, Frame.flatten, hel] using hn (f.thn.flatten ++ Frames.flatten fs)
+        exact ⟨n + outs.length + 1, fin, drain_step _ _ _ _ _ (by simp) hn' _ fin (by simpa [pull_pp] using hs.drain n fin hd), he⟩
+      | true =>
+        -- the then items are delivered, then the else part is skipped to the end of the text
+        obtain ⟨outs, hs, _⟩ := Items.steps f.thn hf.1 { st with opens := st.opens + 1 } hq1
+          (LK.else_ :: (f.els.flatten ++ Frames.flatten fs))
+        have helse : next { ({ st with opens := st.opens + 1 } : PS) with macros := (f.thn.ref st.macros).2 }
+              (LK.else_ :: (f.els.flatten ++ Frames.flatten fs)) =
+            (.pp, { ({ st with macros := (f.thn.ref st.macros).2 } : PS) with lexErr := false, err := some eofMsg }, []) := by
+          simp only [next]
+          rw [skip_hits_eof _ _ [] (by simp [Items.skip f.els hf.2 1 (Nat.le_refl _), Frames.skip_eof fs hoks 1 (Nat.le_refl _)])]
+          exact Prod.ext rfl (Prod.ext (PS.eq_of rfl (by simp) rfl rfl) rfl)
+        obtain ⟨n, fin, hd, he⟩ := hparked { ({ st with macros := (f.thn.ref st.macros).2 } : PS) with lexErr := false, err := some eofMsg } rfl
+        have h2 := drain_step _ _ _ _ _ (by simp) helse n fin (by simpa [pull_pp] using hd)
+        have h3 := hs.drain (n+1) fin h2
+        have hn' : next st (Frames.flatten (f :: fs)) =
+            (.pp, { st with opens := st.opens + 1 }, f.thn.flatten ++ (LK.else_ :: (f.els.flatten ++ Frames.flatten fs))) := by
+          simpa [Frames.flatten, Frame.flatten, hel] using hn (f.thn.flatten ++ (LK.else_ :: (f.els.flatten ++ Frames.flatten fs)))
+        exact ⟨n + 1 + outs.length + 1, fin, drain_step _ _ _ _ _ (by simp) hn' _ fin (by simpa [pull_pp] using h3), he⟩
+
+/-- **unterminated ⇒ parked**: a well-nested item list followed by at least one unterminated
+conditional (each nested in the previous one, with well-nested items in between), run to `Eof`
+from a quiet state, ends with "reached EOF without matching #endif" parked -/
+theorem unterminated_parks (pre : Items) (hpre : pre.ok = true) (fs : List Frame) (hok : ∀ f ∈ fs, f.ok = true)
+    (hne : fs ≠ []) (st : PS) (hq : Quiet st) :
+    ∃ n fin, drain n st (pre.flatten ++ Frames.flatten fs) = some fin ∧ fin.err = some eofMsg := by
+  obtain ⟨outs, hs, _⟩ := Items.steps pre hpre st hq (Frames.flatten fs)
+  obtain ⟨n, fin, hd, he⟩ := Frames.parks fs hok { st with macros := (pre.ref st.macros).2 } hq (fun h => absurd h hne)
+  exact ⟨_, fin, hs.drain n fin hd, he⟩
+
+/-- reference evaluation of an unterminated tail: what is selected from the frames when the text
+simply ends (a disabled branch without `#else` hides everything that follows, so does an `#else`
+part after an enabled branch) -/
+def Frames.ref (ms : List Name) : List Frame → List LK
+| [] => []
+| f :: fs =>
+  if disabled ms f.m f.neg then
+    (if f.hasElse then (f.els.ref ms).1 ++ Frames.ref (f.els.ref ms).2 fs else [])
+  else
+    (if f.hasElse then (f.thn.ref ms).1 else (f.thn.ref ms).1 ++ Frames.ref (f.thn.ref ms).2 fs)
+
+/-- **selection for unterminated tails**: the run over a chain of unterminated conditionals
+delivers exactly the reference's tokens and no directive error -/
+theorem Frames.sel (fs : List Frame) (hok : ∀ f ∈ fs, f.ok = true) (st : PS) (hq : Quiet st) :
+    ∃ n outs, runAll n st (Frames.flatten fs) = some outs ∧ plains outs = Frames.ref st.macros fs ∧
+      noErr outs := by
+  induction fs generalizing st with
+  | nil => exact ⟨1, [], by simp [Frames.flatten, runAll, next], by simp [plains, Frames.ref], by simp [noErr]⟩
+  | cons f fs ih =>
+    have hf := hok f (by simp)
+    simp only [Frame.ok, Bool.and_eq_true] at hf
+    have hoks : ∀ g ∈ fs, g.ok = true := fun g hg => hok g (by simp [hg])
+    have hq1 : Quiet { st with opens := st.opens + 1 } := hq
+    have hend : ∀ (st1 : PS), runAll 1 st1 [] = some [] := by intro st1; simp [runAll, next]
+    have hcons : ∀ {o : Out} {l : List Out}, o ≠ .error → noErr l → noErr (o :: l) := by
+      intro o l h1 h2 o' ho'
+      simp only [List.mem_cons] at ho'
+      rcases ho' with rfl | ho'
+      · exact h1
+      · exact h2 o' ho'
+    have happ : ∀ {a b : List Out}, noErr a → noErr b → noErr (a ++ b) := by
+      intro a b h1 h2 o ho
+      simp only [List.mem_append] at ho
+      rcases ho with ho | ho
+      · exact h1 o ho
+      · exact h2 o ho
+    cases hdis : disabled st.macros f.m f.neg with
+    | true =>
+      cases hel : f.hasElse with
+      | false =>
+        have hn : next st (Frames.flatten (f :: fs)) = (.pp, { st with lexErr := false, err := some eofMsg }, []) := by
+          simp only [Frames.flatten, Frame.flatten, hel, List.cons_append, List.append_assoc, next_open, hdis, if_true]
+          rw [skip_hits_eof st _ []]
+          simp [Items.skip f.thn hf.1 1 (Nat.le_refl _), Frames.skip_eof fs hoks 1 (Nat.le_refl _)]
+        exact ⟨2, [.pp], runAll_step _ _ _ _ _ (by simp) hn 1 [] (hend _),
+          by simp [plains, Frames.ref, hdis, hel], hcons (by simp) (by simp [noErr])⟩
+      | true =>
+        have hn : next st (Frames.flatten (f :: fs)) =
+            (.pp, { st with opens := st.opens + 1 }, f.els.flatten ++ Frames.flatten fs) := by
+          simp only [Frames.flatten, Frame.flatten, hel, List.cons_append, List.append_assoc, next_open, hdis, if_true]
+          rw [skip_else st hq _ (f.els.flatten ++ Frames.flatten fs)]
+          simp [Items.skip f.thn hf.1 1 (Nat.le_refl _), eatUntil]
+        obtain ⟨o1, hs, hp1⟩ := Items.steps f.els hf.2 { st with opens := st.opens + 1 } hq1 (Frames.flatten fs)
+        obtain ⟨n, o2, hr, hp2, hne2⟩ := ih hoks { ({ st with opens := st.opens + 1 } : PS) with macros := (f.els.ref st.macros).2 } hq
+        have h1 := hs.macros_runAll n o2 _ rfl _ rfl hr
+        exact ⟨_, .pp :: (o1 ++ o2), runAll_step _ _ _ _ _ (by simp) hn _ _ h1,
+          by simp [plains, plains_append, Frames.ref, hdis, hel, hp1, hp2], hcons (by simp) (happ hs.noErr hne2)⟩
+    | false =>
+      have hn : ∀ tail, next st ((if f.neg then LK.ifndef else LK.ifdef) :: (List.replicate f.w LK.ws ++ LK.id f.m :: tail)) =
+          (.pp, { st with opens := st.opens + 1 }, tail) := by
+        intro tail; simp [next_open, hdis]
+      cases hel : f.hasElse with
+      | false =>
+        obtain ⟨o1, hs, hp1⟩ := Items.steps f.thn hf.1 { st with opens := st.opens + 1 } hq1 (Frames.flatten fs)
+        obtain ⟨n, o2, hr, hp2, hne2⟩ := ih hoks { ({ st with opens := st.opens + 1 } : PS) with macros := (f.thn.ref st.macros).2 } hq
+        have h1 := hs.macros_runAll n o2 _ rfl _ rfl hr
+        have hn' : next st (Frames.flatten (f :: fs)) =
+            (.pp, { st with opens := st.opens + 1 }, f.thn.flatten ++ Frames.flatten fs) := by
+          simpa [Frames.flatten, Frame.flatten, hel] using hn (f.thn.flatten ++ Frames.flatten fs)
+        exact ⟨_, .pp :: (o1 ++ o2), runAll_step _ _ _ _ _ (by simp) hn' _ _ h1,
+          by simp [plains, plains_append, Frames.ref, hdis, hel, hp1, hp2], hcons (by simp) (happ hs.noErr hne2)⟩
+      | true =>
+        obtain ⟨o1, hs, hp1⟩ := Items.steps f.thn hf.1 { st with opens := st.opens + 1 } hq1
+          (LK.else_ :: (f.els.flatten ++ Frames.flatten fs))
+        have helse : next { ({ st with opens := st.opens + 1 } : PS) with macros := (f.thn.ref st.macros).2 }
+              (LK.else_ :: (f.els.flatten ++ Frames.flatten fs)) =
+            (.pp, { ({ st with macros := (f.thn.ref st.macros).2 } : PS) with lexErr := false, err := some eofMsg }, []) := by
+          simp only [next]
+          rw [skip_hits_eof _ _ [] (by simp [Items.skip f.els hf.2 1 (Nat.le_refl _), Frames.skip_eof fs hoks 1 (Nat.le_refl _)])]
+          exact Prod.ext rfl (Prod.ext (PS.eq_of rfl (by simp) rfl rfl) rfl)
+        have h2 := runAll_step _ _ _ _ _ (by simp) helse 1 [] (hend _)
+        have h1 := hs.macros_runAll 2 [.pp] _ rfl _ rfl h2
+        have hn' : next st (Frames.flatten (f :: fs)) =
+            (.pp, { st with opens := st.opens + 1 }, f.thn.flatten ++ (LK.else_ :: (f.els.flatten ++ Frames.flatten fs))) := by
+          simpa [Frames.flatten, Frame.flatten, hel] using hn (f.thn.flatten ++ (LK.else_ :: (f.els.flatten ++ Frames.flatten fs)))
+        exact ⟨_, .pp :: (o1 ++ [.pp]), runAll_step _ _ _ _ _ (by simp) hn' _ _ h1,
+          by simp [plains, plains_append, Frames.ref, hdis, hel, hp1],
+          hcons (by simp) (happ hs.noErr (hcons (by simp) (by simp [noErr])))⟩
+
+/-- selection for a whole unterminated arrangement -/
+theorem unterminated_sel (pre : Items) (hpre : pre.ok = true) (fs : List Frame) (hok : ∀ f ∈ fs, f.ok = true)
+    (st : PS) :
+    ∃ n outs, runAll n st (pre.flatten ++ Frames.flatten fs) = some outs ∧
+      plains outs = (pre.ref st.macros).1 ++ Frames.ref (pre.ref st.macros).2 fs ∧ noErr outs := by
+  obtain ⟨n, o2, hr, hp2, hne2⟩ := Frames.sel fs hok
+    { ({ st with err := none, lexErr := false } : PS) with macros := (pre.ref st.macros).2 } ⟨rfl, rfl⟩
+  obtain ⟨n', o1, hr1, hp1, hne1⟩ := Items.sel pre hpre st (Frames.flatten fs) n o2
+    (by rw [runAll_congr n { st with macros := (pre.ref st.macros).2 }
+          { ({ st with err := none, lexErr := false } : PS) with macros := (pre.ref st.macros).2 } rfl]; exact hr)
+  refine ⟨n', o1 ++ o2, hr1, by simp [plains_append, hp1, hp2], ?_⟩
+  intro o ho
+  simp only [List.mem_append] at ho
+  rcases ho with ho | ho
+  · exact hne1 o ho
+  · exact hne2 o ho
 
 end PP
 end Tg
